@@ -9,6 +9,7 @@ CONSTANTS
   EsrchFatal = FALSE
   ChildSigsysIgnored = FALSE
   AnyDecision = FALSE
+  ClenPanics = FALSE
   Noise = TRUE
 SPECIFICATION Spec
 INVARIANTS TypeOK Enforced TruthfulResult FinishedAllDead NeverRunnerError EnforcedFilterKill
